@@ -369,6 +369,9 @@ impl Check for HistoryCheck {
         let n = spec.n();
         let mut ct = Tape::new(&tapes[1]);
         let mut st = Tape::new(&tapes[2]);
+        if n >= 65 {
+            st.enable_tail();
+        }
         if (2..=8).contains(&n) && ct.chance(1, 600) {
             return self.run_long(spec, &mut ct, want_decoded);
         }
@@ -844,6 +847,9 @@ impl Check for MultiCheck {
         let lockstep = !one_task && ct.chance(1, 3);
         // generate the interleaving from the schedule tape by simulating
         let mut st = Tape::new(&tapes[2]);
+        if n >= 65 {
+            st.enable_tail();
+        }
         let schedule = {
             let g = build_graph(&spec);
             let mut steppers: Vec<Option<Box<dyn Stepper + '_>>> = (0..k).map(|_| None).collect();
